@@ -473,3 +473,16 @@ def same_path_set(R, P):
 
 def global_is(g):
     return True
+
+
+def exact_sum(L):
+    from fractions import Fraction
+    return sum((Fraction(float(x)) for x in L), Fraction(0))
+
+
+def prefix_round(n, ratios, i):
+    return sum(round(n * r) for r in list(ratios)[:i])
+
+
+def shuffle_perm(k, r):
+    raise NotImplementedError('the shuffle log exists only symbolically (see vkb.c17 for the concrete check)')
